@@ -1,10 +1,14 @@
 #!/venv/bin/python
 """Entry point:  vcheck.py <Cxx> [--tier quick|thorough] [--replay file]"""
 import argparse
+import faulthandler
 import importlib
 import os
+import signal
 import sys
 from pathlib import Path
+
+faulthandler.register(signal.SIGUSR1, all_threads=True)  # kill -USR1 <pid> prints every thread's stack (diagnosis of a stuck run)
 
 sys.path.insert(0, str(Path(__file__).resolve().parent))
 os.environ.setdefault("PYTHONHASHSEED", "0")
